@@ -26,6 +26,14 @@ def start_session(exe, seed, cfg):
     s.op(f"net dup {cfg['dup']}")
     optsA = cfg["regA"] | (32 if cfg.get("consent") else 0) | cfg.get("extra_opts", 0)
     optsB = cfg["regB"] | (32 if cfg.get("consent") else 0) | cfg.get("extra_opts", 0)
+    if cfg.get("nat"):
+        # agents named in cfg["nat"] sit behind port-preserving full-cone NATs (one public address per local address):
+        # the peer only ever sees 203.0.113.x / 198.51.100.x, local and remote peer-reflexive candidates appear
+        for ag in cfg["nat"]:
+            for i in range(cfg["naA" if ag == "A" else "naB"]):
+                real = f"127.0.0.{i + 1}" if ag == "A" else f"127.0.1.{i + 1}"
+                pub = f"203.0.113.{i + 1}" if ag == "A" else f"198.51.100.{i + 1}"
+                s.op(f"net nat {real} {pub}")
     stun = ""
     if cfg.get("stunsrv"):
         # a scripted STUN server (behaviour script cfg["stunsrv"]) both agents gather against
